@@ -11,9 +11,17 @@ Lemma lwf_intro z rt it er tx av has :
 Proof. intros H1 H2. split; assumption. Qed.
 
 (* which bytes a call lower-cases (view w), by token type — exactly what the code does *)
-Definition low_rule (ty : Z) (tk : option sl) (w : sl) (l' : lexer) : Prop :=
+(* Text() of an end tag v: starts after "</", ends before the '>' (if any) minus trailing whitespace *)
+Definition endtag_text (buf : list Z) (v : sl) (o : option sl) : Prop :=
+  exists t k, o = Some t /\ so t = so v + 2 /\ 0 <= k /\ so v + 2 + k <= so v + sn v <= so v + 2 + k + 1 /\
+              sn t = trim_end_len (view_bytes buf (mkSl (so v + 2) k)) /\
+              (so v + sn v = so v + 2 + k + 1 -> peekz buf (so v + 2 + k) = Some 62).
+
+(* which bytes a call lower-cases (view w), by token type — exactly what the code does; buf is the buffer before the call *)
+Definition low_rule (buf : list Z) (ty : Z) (tk : option sl) (w : sl) (l' : lexer) : Prop :=
   if (ty =? StartTagT) || (ty =? SvgT) || (ty =? MathT) || (ty =? XmlT) then ltext l' = Some w
-  else if ty =? EndTagT then tk = Some w
+  else if ty =? EndTagT then
+    match tk with Some v => w = endtag_name_view buf v /\ endtag_text buf v (ltext l') | None => False end
   else if ty =? AttributeT then (ltext l' = Some w \/ (sn w = 0 /\ lhas l' = true))
   else if ty =? ErrorT then (sn w = 0 \/ (ltext l' = Some w /\ lerr l' = true))
   else sn w = 0.
@@ -29,7 +37,7 @@ Definition step_post (l : lexer) (r : Z * option sl * lexer) : Prop :=
   let '(ty, tk, l') := r in
   lwf l' /\ views_ok l ty l' /\
   (exists w, lbuf (lz l') = lower_view (lbuf (lz l)) w /\ lpos (lz l) <= so w /\ 0 <= sn w /\
-             so w + sn w <= lpos (lz l') /\ low_rule ty tk w l') /\
+             so w + sn w <= lpos (lz l') /\ low_rule (lbuf (lz l)) ty tk w l') /\
   lpos (lz l) <= lpos (lz l') <= lx_len (lz l) /\
   match tk with
   | Some v => ty <> ErrorT /\ lpos (lz l) <= so v /\ 0 < sn v /\ so v + sn v = lpos (lz l') /\
@@ -310,7 +318,7 @@ Proof.
       * destruct S1 as (_ & _ & _ & _ & B5). cbn [mv lpos] in B5. lia.
       * unfold plain_ty. tauto.
     + eapply safe_bind; [apply shift_endtag_spec; [exact Hw2|cbn; lia]|]. cbn beta.
-      intros [[v t] z'] (S1 & S2 & S3). cbn [fst snd safe] in *.
+      intros [[v t] z'] (S1 & S2 & S3 & S4 & S5). cbn [fst snd safe] in *.
       destruct S1 as (B1 & B2 & B3 & B4 & B5 & B6). cbn [mv lbuf lstart lpos] in *.
       rewrite (lx_len_same (lz l) (mv (lz l) 2) eq_refl) in B6.
       cbn [step_post lz intag lerr ltext lattr lhas].
@@ -318,8 +326,9 @@ Proof.
       split.
       { split; [|right; left; reflexivity]. cbn [opt_within ltext lz]. destruct S2 as (I1 & I2 & I3). lia. }
       split.
-      { exists v. split; [exact B1|]. destruct B2 as (I1 & I2 & I3). split; [lia|]. split; [lia|]. split; [lia|].
-        unfold low_rule. cbn. reflexivity. }
+      { exists (endtag_name_view (lbuf (lz l)) v). split; [exact B1|]. destruct B2 as (I1 & I2 & I3). split; [lia|]. split; [lia|]. split; [lia|].
+        unfold low_rule. cbn [Z.eqb orb EndTagT StartTagT SvgT MathT XmlT Pos.eqb]. split; [reflexivity|].
+        destruct S5 as (k & K1 & K2 & K3 & K4). exists t, k. cbn [ltext]. repeat split; try assumption; lia. }
       split; [lia|].
       split.
       { split; [discriminate|]. split; [lia|]. split; [lia|]. split; [exact B4|]. split; [exact B5|].
